@@ -194,15 +194,19 @@ class PathEval:
 
 
 def subterms(t):
-    """all sub-terms of t (including t)"""
+    """all sub-terms of t (including t); argument tuples are traversed but not yielded"""
     out = []
     todo = [t]
     while todo:
         x = todo.pop()
-        if not isinstance(x, tuple):
+        if not isinstance(x, tuple) or not x:
             continue
-        out.append(x)
-        for y in x[1:] if x and isinstance(x[0], str) else x:
+        if isinstance(x[0], str):
+            out.append(x)
+            rest = x[1:]
+        else:
+            rest = x
+        for y in rest:
             if isinstance(y, tuple):
                 todo.append(y)
     return out
